@@ -13,6 +13,7 @@ func init() {
 			"(C10-tcp) a port is granted only if it is a TCP container port of the same workload, named target ports are resolved on that workload, the protocol filter tests each container port; " +
 			"(C10-policy) by SSA value identity the entry's own set is intersected with the verdict from the fixed, unlabeled fake pod to that entry's peer, and the row / the warning are the two arms of the emptiness test; " +
 			"(C10-ns) objects are stored under their own namespace/name, services are looked up under the Ingress/Route namespace, workloads are selected by the service selector within the service namespace, repeated hits accumulate by Union; " +
+			"(C10-loop) a struct local updated field by field in a loop of the ingress analyzer (the pod access port) is a fresh variable of each iteration; " +
 			"(C10-pure) no unreviewed memo on the ingress query path. " +
 			"NOT decided: the arithmetic of which concrete ports result on an input; k8s label-selector matching (library)."
 		rules.FieldCoverage(p, r, "C10-fields", "the list path", rules.ListEntries(p), rules.FieldsIngress, "a Service/Ingress/Route field named by the statement is never read on the list path")
@@ -21,5 +22,7 @@ func init() {
 		rules.IngressPolicyIntersection(p, r, "C10-policy")
 		rules.IngressNamespaceScoping(p, r, "C10-ns")
 		rules.QueryPathWrites(p, r, "C10-pure")
+		rules.LoopCarriedPartialWrites(p, r, "C10-loop", core.PkgIngress)
+		r.Floor("C10-loop", 1)
 	})
 }
